@@ -179,7 +179,11 @@ def _(w, e):
     else:
         seq = [need(w, h) for h in root["path"]]
         obj = HRef.from_sequence(seq)
-    res = list(FNS[e["fn"]](list(obj) if isinstance(obj, list) else obj, recursive=e.get("recursive", False)))
+    if e.get("via") == "method" and not isinstance(obj, list):
+        # the shortcut spelling  obj.get_hx(...)  of  sdn.get_hx(obj, ...)
+        res = list(getattr(obj, "get_" + e["fn"])(recursive=e.get("recursive", False)))
+    else:
+        res = list(FNS[e["fn"]](list(obj) if isinstance(obj, list) else obj, recursive=e.get("recursive", False)))
     w.last_query = (obj, res)
     if e.get("hold"):
         w.held_hrefs.append(res)
@@ -353,7 +357,8 @@ class QueryGen:
             if not c:
                 return None
             root = {"r": "h", "h": r.choice(c)}
-        return {"op": "hquery", "fn": fn, "root": root, "recursive": rec, "hold": r.random() < 0.6}
+        return {"op": "hquery", "fn": fn, "root": root, "recursive": rec, "hold": r.random() < 0.6,
+                "via": "method" if (root["r"] != "list" and r.random() < 0.3) else None}
 
 
 class C11(Prop):
